@@ -14,6 +14,32 @@ PARTIAL = (' PARTIAL: decides the named structural clauses, each a necessary '
            'some input); it does not decide the run-time behaviour itself.')
 
 CLAIMED = {
+    'C06': dict(
+        partial=True,
+        text='Decides the renaming clause only: a type-tag flow analysis '
+             'over every function reachable from the three modelchecks '
+             '(abstract interpretation per function, return and parameter '
+             'types closed by fixpoint over the call graph) shows that '
+             'values tagged State (what states()/nodes()/next()/edges hand '
+             'out, keys of the adjacency and label dictionaries, '
+             'atom.state) and AtomName reach only ==, hash, `in`, storage, '
+             'return and message formatting -- never <,>, sorting without '
+             'key, arithmetic, subscripting, attribute access or '
+             'isinstance. By parametricity the answers are invariant under '
+             'any bijective renaming of states/atoms (including to tuples '
+             'or mixed types) up to iteration order. A scratch variant with '
+             'an injected sorted(states) must be flagged on every run. The '
+             'clauses about input ordering, PYTHONHASHSEED and unreachable '
+             'states are statements about run-time iteration order and are '
+             'NOT decided.',
+        ref='3-C06',
+        note='trusted: seed tables of the documented graph/Kripke API '
+             '(method result, field and parameter types); the '
+             'iteration-order / hash-seed clauses are not decided by any '
+             'static argument in reach',
+        technique='type-tag (taint) flow analysis with interprocedural '
+                  'return/parameter type fixpoint; opaque-value usage '
+                  'rule'),
     'C07': dict(
         text='Interprocedural effect/alias summaries (parameters modified, '
              'results aliased, values stored, module/class writes) are '
